@@ -315,7 +315,8 @@ UseVerdict2(prog, rs, rl, u, reported) ==
        ELSE IF AnyStmt(prog, "loopelse") THEN "dev:loop-else"
        \* (b) in a loop that is always entered (`while True`) a use before the first assignment of the body is
        \*     not reported although the first iteration executes it with the name unbound
-       ELSE IF AnyStmt(prog, "whiletrue") /\ missing = {0} /\ (extra = {} \/ AnyStmt(prog, "bodyleaves"))
+       \*     (in excess only what (c) / (c') explain: the body is visited again although it always leaves / breaks)
+       ELSE IF AnyStmt(prog, "whiletrue") /\ missing = {0} /\ (extra = {} \/ AnyStmt(prog, "bodyleaves") \/ AnyStmt(prog, "break"))
             THEN "dev:always-entered-loop-first-iteration"
        \* (c) the loop body is visited a second time even when its first pass always leaves the loop
        ELSE IF AnyStmt(prog, "bodyleaves") /\ missing = {} THEN "dev:loop-body-revisited-after-unconditional-exit"
